@@ -32,6 +32,48 @@ TEXTS = ["#nocl", "# nocl", "#  NOCL x", ";nocl", "; NoCl", "//nocl", "// nocl",
          "/ nocl", "// no cl", "#", "", "//", "/*", "# nocl", "// NoCl", "#​nocl", "# nocl\n", "//\tnocl", "/* \n nocl */", "#nOcL", "# ɴocl", "#İnocl", "// NOCLx"]
 
 
+_pools = {}
+
+
+def dictionary_pools(fam):
+    """(markers, decoys) built from the string literals of the code under check (harness/gen/srcdict.py; literals that are
+    new in the source first, then a sample of the others): each word w gives the comment bodies w, `nocl w`, `nocl-w`,
+    `nocl:w`, `NOCL=w`, `w nocl` in every comment style of the family; the property's reading (`spec_is_nocl`: the text
+    behind the leader begins with the marker, whatever follows) sorts each comment into markers or decoys"""
+    if fam not in _pools:
+        from gen import srcdict
+        novel = [w for w in srcdict.words(novel_only=True) if w.strip()]
+        for rx in srcdict.novel_regexes():
+            import re
+            novel += re.findall(r"[A-Za-z][A-Za-z-]{2,}", rx)
+        rnd = common.rng("c17dict", fam)
+        allw = [w for w in srcdict.words() if w.strip() and w.isprintable()]
+        words = novel[:40] + rnd.sample(allw, min(len(allw), 12))
+        marks, decoys = [], []
+        for w in words:
+            w = w.replace("*/", " ").strip()
+            for body in (w, "nocl " + w, "nocl-" + w, "nocl:" + w, "NOCL=" + w, "NoCl" + w, w + " nocl", w.upper()):
+                styles = ["# %s", "#%s", "#\t%s"] if fam == "Python" else ["// %s", "//%s", "/* %s */", "/*%s*/", "//\t%s"]
+                text = rnd.choice(styles) % body
+                (marks if spec_is_nocl(text) else decoys).append(text)
+        _pools[fam] = (marks, decoys, len(novel))
+    return _pools[fam]
+
+
+def mark_text(fam, rnd):
+    marks, _, novel = dictionary_pools(fam)
+    if marks and rnd.random() < (0.5 if novel else 0.2):
+        return rnd.choice(marks)
+    return rnd.choice(MARK[fam])
+
+
+def decoy_text(fam, rnd):
+    _, decoys, novel = dictionary_pools(fam)
+    if decoys and rnd.random() < (0.5 if novel else 0.2):
+        return rnd.choice(decoys)
+    return rnd.choice(DECOY[fam])
+
+
 def independent(o):
     """functions that neither enclose nor are nested in another function, with a free name line"""
     has_child = {f.parent for f in o.funcs if f.parent is not None}
@@ -104,7 +146,7 @@ def variants(ctx):
         for rnd_i in range(ctx.pick(2, 4)):
             k = rnd.randint(1, len(ind))
             chosen = rnd.sample(ind, k)
-            marks = {f.markable: rnd.choice(MARK[fam]) for f in chosen}
+            marks = {f.markable: mark_text(fam, rnd) for f in chosen}
             removed = {(f.name, f.start[0], f.start[1]) for f in chosen}
             if rnd_i % 2 == 0:
                 out.append((lang, orig, with_comments(o, marks), removed, "mark"))
@@ -115,7 +157,7 @@ def variants(ctx):
             inline = inline_separators(o, lang, chosen, rnd)
             out.append((lang, with_comments(o, {}, None, inline), with_comments(o, marks, gaps, inline), removed, "mark-separators"))
         chosen = rnd.sample(ind, rnd.randint(1, len(ind)))
-        out.append((lang, orig, with_comments(o, {f.markable: rnd.choice(DECOY[fam]) for f in chosen}, {f.markable: rnd.choice(GAPS) for f in chosen}), set(), "decoy"))
+        out.append((lang, orig, with_comments(o, {f.markable: decoy_text(fam, rnd) for f in chosen}, {f.markable: rnd.choice(GAPS) for f in chosen}), set(), "decoy"))
         # a REAL marker comment on a line that is not the name's line changes nothing: the other
         # lines of a multi-line header, the first body line, the closing line, a comment-only
         # line directly above or below the name line
@@ -131,7 +173,7 @@ def variants(ctx):
                 segs = o.lines[ln - 1]
                 free = not any((not code) and text.strip() for (text, owner, code) in segs) and any(code for (_, _, code) in segs)
                 if ln not in name_lines and free and rnd.random() < 0.5:
-                    elsewhere[ln] = rnd.choice(MARK[fam])
+                    elsewhere[ln] = mark_text(fam, rnd)
         if elsewhere:
             out.append((lang, orig, with_comments(o, elsewhere), set(), "marker-elsewhere"))
         # comment-only marker lines inserted directly above name lines
@@ -141,7 +183,7 @@ def variants(ctx):
             v = list(lines)
             shift = {}
             for ln in ins:
-                v.insert(ln - 1, " " * rnd.choice([0, 2, 4]) + rnd.choice(MARK[fam]))
+                v.insert(ln - 1, " " * rnd.choice([0, 2, 4]) + mark_text(fam, rnd))
             out.append((lang, orig, "\n".join(v), ("shift", sorted(ins)), "marker-line-above"))
     return out
 
@@ -185,6 +227,11 @@ def _correspond_programs(ctx):
         lead = rnd.choice(["#", ";", "//", "/*", "", "# ", "//  ", "/*\t", "#\xa0", "##", "/"])
         body = rnd.choice(["nocl", "NOCL", "NoCl", "nocl!", "no cl", "n0cl", "xnocl", "nocl x", "", " nocl", " nocl"])
         texts.append(lead + body + rnd.choice(["", " */", " trailing", "\n"]))
+    for fam in ("Python", "brace"):
+        marks, decoys, _ = dictionary_pools(fam)
+        texts += marks + decoys
+    dist["dictionary_marker_texts"] = sum(len(dictionary_pools(f)[0]) for f in ("Python", "brace"))
+    dist["dictionary_decoy_texts"] = sum(len(dictionary_pools(f)[1]) for f in ("Python", "brace"))
     model = common.run_driver(["nocl %s" % sr.sstr(t) for t in texts])
     for t, m in zip(texts, model):
         i = "ok T" if real_is_nocl(t) else "ok F"
@@ -195,7 +242,7 @@ def _correspond_programs(ctx):
             fails.append({"input": {"stream": "text", "text": t}, "observed": i, "required": "marker recognised: %s" % want})
     return {
         "evaluations": len(vs) + len(texts), "distinct_nontrivial": len(nontrivial),
-        "rule": "canonical programs x random subsets of their independent functions marked on the name line, in every comment style / letter case / spacing of the marker (incl. tab, NBSP, EM SPACE after the leader); each marking also with other white space between code and comment (tab, NBSP, U+000B U+000C U+001C-E U+0085 U+2028 U+2029) and a separator character between the tokens or inside a string literal of the name line; plus decoy comments (marker word later in the text, doc-comment leaders); comment texts through the marker recogniser; non-trivial = distinct marked variants that remove at least one function",
+        "rule": "marker and decoy texts also built from the string literals of the code under check (w, nocl w, nocl-w, nocl:w, NOCL=w, w nocl for literals new in the source and a sample of the others; sorted into markers / decoys by the property's reading), used on name lines, on other lines of the function, on comment-only lines above, and through the marker recogniser; canonical programs x random subsets of their independent functions marked on the name line, in every comment style / letter case / spacing of the marker (incl. tab, NBSP, EM SPACE after the leader); each marking also with other white space between code and comment (tab, NBSP, U+000B U+000C U+001C-E U+0085 U+2028 U+2029) and a separator character between the tokens or inside a string literal of the name line; plus decoy comments (marker word later in the text, doc-comment leaders); comment texts through the marker recogniser; non-trivial = distinct marked variants that remove at least one function",
         "samples": [{"language": l, "removed": sorted(rm), "variant_tail": v[-160:]} for (l, _, v, rm, k) in vs[:2]],
         "exhaustive": False, "distribution": dist,
         "disagreements": dis[:50], "oracle_failures": fails[:50],
